@@ -1,7 +1,7 @@
 """C13 -- bandwidth limit respected without starving or over-throttling (function-level core).
 
 K2 monitor on LeakyBucket._lock over the bucket, its scheduler and its rate tracker; floats are
-mathematical reals (A-REAL); the clock handed to the tracker strictly increases (A-CLOCK-MONOTONE).
+mathematical reals (A-REAL); the clock handed to the tracker does not go backwards (A-CLOCK-MONOTONE; equal readings are allowed).
 The scheduler's total wait is tied to the sum over scheduled tokens by an uninterpreted SUM with two
 finite-sum lemmas (update / member bound) as background axioms (listed as trusted lemmas)."""
 import z3
@@ -59,9 +59,14 @@ def tracker(view, bucket):
     return t.fields['_alpha'], t.fields['_last_time'], t.fields['_current_rate']
 
 
+def nonfinite(v):
+    v = v.val if isinstance(v, Opt) else v
+    return isinstance(v, tuple) and len(v) == 2 and isinstance(v[0], str) and v[0] == '$inf'
+
+
 def ov(v):
     """payload of an optional float as a real term (0 when None)."""
-    if v is None:
+    if v is None or nonfinite(v):
         return z3.RealVal(0)
     if isinstance(v, Opt):
         return to_real(v.val)
@@ -83,6 +88,9 @@ def bucket_inv(view, ref):
         'scheduled_shares_nonneg': z3.ForAll([x], z3.Implies(z3.Select(pres, x), z3.Select(ttc, x) >= 0)),
         'tracker_started_consistently': is_none(last) == is_none(rate),
         'tracked_rate_nonneg': z3.Or(is_none(rate), ov(rate) >= 0),
+        # an infinite tracked rate never decays (alpha*x + (1-alpha)*inf = inf): every later read of every transfer would be
+        # throttled for good -- "throttling never permanently slows transfers"
+        'tracked_rate_is_finite': z3.BoolVal(not nonfinite(rate)),
         'max_rate_positive': view.f(ref, '_max_rate') > 0,
         'alpha_in_unit_interval': z3.And(alpha > 0, alpha < 1),
     }
@@ -110,12 +118,12 @@ def register(R):
     R.add_fields(CS, **SCHED_FIELDS)
     R.add_fields(LB, _max_rate=Real, _time_utils=ExtT('time_utils'), _lock=LockT(),
                  _rate_tracker=ObjT(RT), _consumption_scheduler=ObjT(CS))
-    # A-CLOCK-MONOTONE: successive time() values under the lock strictly increase
+    # A-CLOCK-MONOTONE: successive time() values under the lock do not decrease (equal readings -- same tick -- are possible)
     def clock_effect(eng, st, recv, args, kwargs, result):
         b = st.ghost.get('c13_bucket')
         if b is not None:
             last = st.obj(st.obj(b).fields['_rate_tracker']).fields['_last_time']
-            st.assume(z3.Or(is_none(last), result > ov(last)))
+            st.assume(z3.Or(is_none(last), result >= ov(last)))     # NON-strict: two readings in the same tick are possible
 
     R.external('time_utils', time=ExtSpec(returns=Real, raises=(), effect=clock_effect),
                sleep=ExtSpec(raises=(), blocking=True))
@@ -327,7 +335,7 @@ MANIFEST = dict(
           'is either admitted at once (only within the 1/alpha smoothing allowance) or refused with retry_time == sum of '
           'the shares now waiting including its own; the stream wrapper consumes once per threshold, raises the '
           'transfer error instead of sleeping again and leaves no abandoned token scheduled.'),
-    note=('Floats are reals (A-REAL); clock strictly increasing (A-CLOCK-MONOTONE); two finite-sum lemmas are background '
+    note=('Floats are reals (A-REAL); clock non-decreasing (A-CLOCK-MONOTONE); two finite-sum lemmas are background '
           'axioms; the windowed rate bound over long histories and fairness in virtual time are not decided by contracts.'),
     technique='contract-based deductive verification: monitor invariant + case contracts over reals, z3',
 )
@@ -358,4 +366,4 @@ def bounded_checks(tier, seed):
     from pyvc.bounded import run_tool
     k = 4 if tier == 'quick' else 5
     return run_tool('C13', 'b3_leakybucket', 'b3_leakybucket.py', [k],
-                    f'all sequences of <= {k} consume/unschedule ops over 2 tokens, 4 amounts, 2 time steps', 'failing_ops')
+                    f'all sequences of <= {k} consume/unschedule ops over 2 tokens, 4 amounts, 3 time steps (0 = same clock tick)', 'failing_ops')
